@@ -1,18 +1,25 @@
 #!/bin/sh
-# Applies every seeded change in turn and runs the checks named in its props.txt (or all given as $1); writes seeded/SWEEP.txt
+# Applies every seeded change (seeded/*/patch.diff) in turn to a scratch worktree of /repo, runs the quick tier of the
+# properties named in its props.txt against that worktree (VERIF_REPO), and writes seeded/SWEEP.txt.  /repo is not touched.
 cd /verif
-out=seeded/SWEEP.txt; : > $out
+W=/tmp/sweeprepo.$$; git -C /repo worktree add -q --detach $W HEAD || exit 2
+ONLY=$1   # optional: only seeded changes whose directory name contains this string (result in seeded/SWEEP.part.txt)
+final=seeded/SWEEP.txt; [ -n "$ONLY" ] && final=seeded/SWEEP.part.txt
+out=$final.new; : > $out
+echo "# seeded change | property | exit (1 = violation reported) | number of VIOLATION lines | first violation" >> $out
+echo "# /repo at $(git -C /repo log --format=%h -1), /verif at $(git log --format=%h -1), $(date -u +%Y-%m-%dT%H:%MZ)" >> $out
 for d in seeded/*/; do
   n=$(basename $d); [ -f $d/patch.diff ] || continue
+  case "$n" in *"$ONLY"*) ;; *) continue;; esac
   props=$(cat $d/props.txt 2>/dev/null); [ -z "$props" ] && continue
-  git -C /repo apply $(realpath $d/patch.diff) 2>/dev/null || { echo "$n: PATCH DOES NOT APPLY" >> $out; continue; }
+  git -C $W apply $(realpath $d/patch.diff) 2>/dev/null || { echo "$n | - | PATCH DOES NOT APPLY" >> $out; continue; }
   for p in $(echo $props | tr , ' '); do
-    ./check.sh $p quick > /tmp/sweep_$p.log 2>&1; rc=$?
+    VERIF_REPO=$W VERIF_EVIDENCE_SUFFIX=.sweep ./check.sh $p quick > /tmp/sweep_$p.log 2>&1; rc=$?
     v=$(grep -c "^VIOLATION" /tmp/sweep_$p.log)
-    first=$(grep -m1 -B1 "^VIOLATION" /tmp/sweep_$p.log | head -1 | cut -c1-160)
+    first=$(grep -m1 -B1 "^VIOLATION" /tmp/sweep_$p.log | head -1 | cut -c1-170)
     echo "$n | $p | exit=$rc | violations=$v | $first" >> $out
   done
-  git -C /repo checkout -- . 
+  git -C $W checkout -- . ; git -C $W clean -fdq
 done
-git -C /repo status --short | head -2 >> $out
-echo DONE >> $out
+git -C /repo worktree remove --force $W
+echo DONE >> $out; mv $out $final
